@@ -37,7 +37,7 @@ func kinds(r *rand.Rand, T time.Duration) []blk.Kind {
 	return []blk.Kind{
 		{Family: "blocking", Timeout: 0},
 		{Family: "blocking", Timeout: T},
-		{Family: "deadline", Timeout: T},
+		{Family: "deadline", Timeout: T, ZoneOffset: []int{0, 0, 19800, -28800, 3600, -1800}[r.IntN(6)]}, // the deadline value may be expressed in any zone
 		{Family: "queue", Ordering: "fifo", Evict: true, Backlog: 5, Timeout: T},
 		{Family: "queue", Ordering: "lifo", Evict: false, Backlog: 5, Timeout: T},
 		{Family: "queue", Ordering: "lifo", Evict: true, Backlog: 5, Timeout: T},
@@ -407,6 +407,70 @@ func afterCancelledWaiter(t *testing.T, idx int64, r *rand.Rand, kindIdx int) {
 		fail("second-caller-returned-after-its-bound")
 	}
 	rt.Distinct(fmt.Sprintf("acw|%s|%v", k, expected))
+}
+
+// cancelNewest: two or three callers blocked on one limiter, nothing is released; the context of one that is NOT the
+// longest-waiting ends.  That caller is refused at that instant (where cancellation is honoured at all), the others
+// stay blocked.
+func cancelNewest(t *testing.T, idx int64, r *rand.Rand) {
+	T := time.Duration(200+r.IntN(2000)) * time.Millisecond
+	k := []blk.Kind{
+		{Family: "blocking", Timeout: 0},
+		{Family: "blocking", Timeout: time.Hour},
+		{Family: "deadline", Timeout: time.Hour},
+		{Family: "queue", Ordering: "fifo", Evict: true, Backlog: 5, Timeout: time.Hour},
+		{Family: "queue", Ordering: "lifo", Evict: true, Backlog: 5, Timeout: -1},
+	}[r.IntN(5)]
+	n := 2 + r.IntN(2)
+	victim := 1 + r.IntN(n-1)
+	var ws []*blk.Waiter
+	var cancelAt time.Duration
+	var snap blk.Snapshot
+	var trace []string
+	rt.Scenario(fmt.Sprintf("C13/%s/cancel-of-a-caller-that-is-not-the-longest-waiting", k), idx, rt.J{"kind": k})
+	defer rt.ScenarioDone()
+	bubble(t, func(t *testing.T) {
+		w := blk.NewWorld(k, 1)
+		held := w.Hold(1)
+		for i := 0; i < n; i++ {
+			time.Sleep(time.Duration(1 + r.Int64N(int64(T)/16)))
+			ws = append(ws, w.Spawn())
+			w.Quiesce()
+		}
+		time.Sleep(time.Duration(1 + r.Int64N(int64(T)/4)))
+		cancelAt = w.Now()
+		w.CancelWaiter(ws[victim])
+		w.Quiesce()
+		time.Sleep(T)
+		w.Quiesce()
+		snap = w.Snap("after-the-cancellation")
+		w.Teardown(held)
+		trace = w.Trace()
+	})
+	if len(ws) != n {
+		return
+	}
+	rt.Count("cancel_of_a_newer_waiter_scenarios", 1)
+	v := ws[victim]
+	if !v.Done() || v.OK || v.Returned != cancelAt {
+		rt.Violation(fmt.Sprintf("C13/%s/cancelled-caller-not-refused-at-the-instant-of-cancellation/others-still-waiting", k), idx, rt.J{"kind": k, "callers_blocked": n,
+			"cancelled_caller(arrival index)": victim, "cancelled_at": cancelAt.String(), "returned": v.Done(), "returned_at": v.Returned.String(), "ok": v.OK, "snapshot": snap, "trace": trace})
+		return
+	}
+	for i, o := range ws {
+		if i == victim {
+			continue
+		}
+		still := false
+		for _, id := range append(append([]int{}, snap.Blocked...), snap.GivingUp...) {
+			still = still || id == o.ID
+		}
+		if !still {
+			rt.Violation(fmt.Sprintf("C13/%s/another-callers-cancellation-ended-this-callers-wait", k), idx, rt.J{"kind": k, "caller": i, "cancelled_caller": victim, "snapshot": snap, "trace": trace})
+			return
+		}
+	}
+	rt.Distinct(fmt.Sprintf("cn|%s|%d|%d", k, n, victim))
 }
 
 // cancelAtHandoff: queue limiter with eviction on.  A holder completes before the caller's bound and, while that
@@ -814,6 +878,10 @@ func TestCheck(t *testing.T) {
 		}
 		if idx%36 == 13 {
 			cancelAtHandoff(t, idx, r)
+			return
+		}
+		if idx%36 == 31 {
+			cancelNewest(t, idx, r)
 			return
 		}
 		if idx%45 == 7 {
